@@ -139,6 +139,33 @@ fn gen_issue(thorough: bool, rng: &mut Rng) -> Result<(), String> {
         }
         sessions.push(s);
     }
+    // ---- a schema attribute the holder only COMMITS to and the issuer does not supply: a commitment is
+    //      not part of U and is never signed, so the issuer must refuse ("value not provided") instead of
+    //      issuing a signature that lacks R_attr^m (seventh seeding round: coverage check relaxed)
+    for k in 0..(if thorough { 6 } else { 2 }) {
+        let name = rng.pick(&names).clone();
+        let cd = pool.get(&name);
+        let e = |x: Error| x.to_string();
+        let (_known_all, hidden) = rand_values(cd, rng, true)?;          // commitment to cd.attrs[0]
+        let mut kb = Issuer::new_credential_values_builder().map_err(e)?;
+        for a in cd.attrs.iter().skip(1) {
+            kb.add_dec_known(a, &int_value(rng).to_string()).map_err(e)?;
+        }
+        let known_without = kb.finalize().map_err(e)?;
+        let nonce = new_nonce().map_err(e)?;
+        let (blinded, _factors, bproof) = Prover::blind_credential_secrets(&cd.pk, &cd.kcp, &hidden, &nonce).map_err(e)?;
+        let inonce = new_nonce().map_err(e)?;
+        let r = guard(|| Issuer::sign_credential("prover-uncovered", &blinded, &bproof, &nonce, &inonce, &known_without, &cd.pk, &cd.sk));
+        let mut oracles = vec![];
+        if r.is_ok() {
+            oracles.push(json!({"name":"issuer_covers_every_attribute","ok":false,"detail":format!("sign_credential issued a signature although the issuer's values lack the schema attribute '{}' (the holder only sent a commitment to it): the signature does not cover R_{}", cd.attrs[0], cd.attrs[0])}));
+        }
+        if matches!(r, Out::Panic(_)) {
+            oracles.push(json!({"name":"issuer_no_panic","ok":false,"detail":format!("sign_credential panicked on an uncovered committed attribute: {}", r.msg())}));
+        }
+        emit(&json!({"id": format!("issue/uncovered-committed/{}", k), "op": "issue_failed", "in": {},
+            "impl": {"status": r.tag(), "oracles": oracles}, "class": {"kind": "uncovered_committed_attribute", "def": name}}));
+    }
     // ---- with a revocation index: m2 depends on it
     {
         let cd = pool.get("gvt_rev");
